@@ -274,7 +274,7 @@ class Finding:
         return hashlib.sha256((self.suite + self.lhs).encode()).hexdigest()[:10]
 
 def bytes_len(lhs):
-    hx = lhs.split(" ")[6]
+    hx = lhs.split(" ")[-1]
     return 0 if hx == "-" else len(hx) // 2
 
 def container_over(w):
@@ -372,6 +372,13 @@ def proj_C19(lhs, o, t):
         return (o["kind"], o["pos"])
     return ()
 def oracle_C19(lhs, o, t):
+    if lhs[0] == "C":
+        f = lhs.split(" ")
+        kind, lo, hi = f[4], int(f[5]), int(f[6])
+        if o["cls"] != "err": return f"exactly one constrained byte ({kind} at {lo}..{hi}) was corrupted but validation gave {o['cls']}"
+        if o["kind"] != kind: return f"corrupted byte at {lo}..{hi}: reported {o['kind']}@{o['pos']}, expected {kind}"
+        if not (lo <= o["pos"] <= hi): return f"corrupted byte at {lo}..{hi}: reported at {o['pos']}"
+        return None
     if o["cls"] == "err" and o["kind"] in ("invalidData", "invalidEnumTag"):
         if o["pos"] >= bytes_len(lhs):
             return f"error position {o['pos']} is outside the {bytes_len(lhs)}-byte slice"
@@ -802,6 +809,7 @@ PROPS = {
     "C10": dict(module="FV.Props.C10", theorems=["FV.Props.C10_recv_never_faults"], suites=["io", "aio"], proj=proj_C10, oracle=oracle_io_basic, post=post_io("C10")),
     "C16": dict(module="FV.Props.C16", theorems=["FV.Props.C16_size", "FV.Props.C16_byte_order", "FV.Props.C16_native_roundtrip", "FV.Props.C16_bytes_roundtrip", "FV.Props.C16_eq_iff", "FV.Props.C16_delegates", "FV.Props.C16_bool_validate"], suites=["portable"], proj=proj_C16, oracle=oracle_C16),
     "C17": dict(module="FV.Props.C17", theorems=["FV.Props.C17_align_one", "FV.Props.C17_no_padding"], suites=["emplace", "bytes"], proj=proj_C17, oracle=oracle_C17, post=post_C17),
+    "C19": dict(module="FV.Props.C19", theorems=["FV.Props.C19_bool", "FV.Props.C19_tag", "FV.Props.C19_fields", "FV.Props.C19_array", "FV.Props.C19_vec_elems"], suites=["bytes"], proj=proj_C19, oracle=oracle_C19),
     "C06": dict(module="FV.Props.C06", theorems=["FV.Props.C06_prefix_insufficient", "FV.Props.C06_extension_same"], suites=["bytes"], proj=proj_C06, oracle=oracle_C06),
 }
 
